@@ -505,7 +505,12 @@ class Reader:
                         self.default_ttl_known = True
                         self.tok.get_eol()
                     elif c == "$ORIGIN":
-                        self.current_origin = self.tok.get_name()
+                        # RFC 1035 5.1: a relative name is completed with the current origin.
+                        self.current_origin = self.tok.get_name(self.current_origin)
+                        if not self.current_origin.is_absolute():
+                            raise dns.exception.SyntaxError(
+                                "relative $ORIGIN and no origin to complete it"
+                            )
                         self.tok.get_eol()
                         if self.zone_origin is None:
                             self.zone_origin = self.current_origin
